@@ -193,12 +193,14 @@ class Availability(Harness):
     width = 64
     PFX = {'openssh': '', 'dropbear': 'd', 'libssh': 'l1'}
 
-    def __init__(self, product, sa, sb):
-        self.product, self.sa, self.sb = product, tuple(sa), tuple(sb)
-        self.name = 'availability-%s-%s-vs-%s' % (product, 'x'.join(map(str, sa)), 'x'.join(map(str, sb)))
+    BANNERS = {'openssh': 'OpenSSH_', 'dropbear': 'dropbear_', 'libssh': 'libssh_'}
+
+    def __init__(self, product, sa, sb, via_banner=False):
+        self.product, self.sa, self.sb, self.via_banner = product, tuple(sa), tuple(sb), via_banner
+        self.name = 'availability-%s-%s-vs-%s%s' % (product, 'x'.join(map(str, sa)), 'x'.join(map(str, sb)), '-banner' if via_banner else '')
 
     def params(self):
-        return {'product': self.product, 'sa': list(self.sa), 'sb': list(self.sb)}
+        return {'product': self.product, 'sa': list(self.sa), 'sb': list(self.sb), 'via_banner': self.via_banner}
 
     def inputs(self):
         return {'a': sym_version('a', self.sa), 'b': sym_version('b', self.sb)}
@@ -217,7 +219,14 @@ class Availability(Harness):
         OL.fresh_tables(M, patch)
         kex = make_kex(M, {'kex': ['zx-offered', 'zx-weak'], 'key': ['h'], 'enc': ['e'], 'mac': ['m']})
         algs = M.algorithms.Algorithms(None, kex)
-        sw = M.software.Software(None, PRODUCTS[self.product], inp['a'], None, None)
+        if self.via_banner:
+            # the server's version as the tool identifies it from the identification string (Banner.parse + Software.parse)
+            b = M.banner.Banner.parse('SSH-2.0-' + self.BANNERS[self.product] + inp['a'])
+            sw = M.software.Software.parse(b) if b is not None else None
+            if sw is None:
+                return {'exc': Exc('NotIdentified', 'software not identified from the banner')}
+        else:
+            sw = M.software.Software(None, PRODUCTS[self.product], inp['a'], None, None)
         r = guarded(algs.get_recommendations, sw, True)
         if isinstance(r, Exc):
             return {'exc': r}
@@ -313,6 +322,14 @@ def tasks(tier):
         T.append(Availability('libssh', (1, 2, 1), (1, 1, 1)))
         T.append(Availability('libssh', (1, 1, 1), (1, 2, 1)))
         T.append(Availability('dropbear', (4, 2), (4, 2)))
+        T.append(Availability('openssh', (2, 1), (1, 1), True))
+        T.append(Availability('openssh', (1, 1), (2, 1), True))
+        T.append(Availability('libssh', (1, 2, 1), (1, 1, 1), True))
+        T.append(Availability('dropbear', (4, 2), (4, 2), True))
+    else:
+        for p in prods:
+            for a in [(1, 1), (2, 1), (1, 2), (2, 2), (1, 2, 1), (4, 2)]:
+                T.append(Availability(p, a, (1, 1) if len(a) == 2 else (1, 1, 1), True))
     T.append(comparator_sites)
     return T
 
@@ -324,7 +341,7 @@ def harness_by_name(name, params):
     if k == 'trans':
         return Transitive(params['product'], params['sa'], params['sb'], params['sc'])
     if k == 'availability':
-        return Availability(params['product'], params['sa'], params['sb'])
+        return Availability(params['product'], params['sa'], params['sb'], params.get('via_banner', False))
     if k == 'timeframe':
         return TimeframeMinMax(params['prefix'], params['sa'], params['sb'], params['order'])
     raise KeyError(name)
